@@ -364,6 +364,11 @@ def o_C03(sc):
         return 'C03 profile: impl %s expected %s' % (got, [(float(a), b, c) for a, b, c in exp])
     if sum(c1) != sum(c2):
         return 'C03 unequal coincidence counts'
+    # the scalar over the whole recording: coincident spikes / all spikes (spikes on the edges included), 1 without spikes
+    v = quiet(spk.spike_sync, mk(sc['trains'][0]), mk(sc['trains'][1]), **mt_of(sc), **kwargs_of(sc))
+    ev = Fr(sum(c1) + sum(c2), len(s1) + len(s2)) if (len(s1) + len(s2)) else Fr(1)
+    if not feq(v, ev):
+        return 'C03 spike_sync = %r, but %d of the %d spikes are coincident' % (v, sum(c1) + sum(c2), len(s1) + len(s2))
     f = quiet(spk.filter_by_spike_sync, [mk(sc['trains'][0]), mk(sc['trains'][1])], 0.5, **mt_of(sc), **kwargs_of(sc))
     kept = [float(a) for a, c in zip(s1, c1) if c]
     if list(f[0].spikes) != kept:
